@@ -48,7 +48,7 @@ def _minors(ctx, exe, quick):
             continue
         recs, fails, final = base.run_native(exe, ["minors", "matrix=" + mx, "colsk=" + ",".join(map(str, colsk))],
                                              deadline=ctx.deadline - 3)
-        base.report_fails(ctx, fails)
+        base.report_fails(ctx, fails, final)
         for k, d in recs:
             if k == "MINORS_K":
                 kk, n = int(d["k"]), int(d["minors"])
@@ -83,6 +83,7 @@ def _minors(ctx, exe, quick):
 
 def _dec(ctx, exe, quick):
     total = 0
+    notrun = []
     for mode in (0, 1):
         for nds, fullmax, pairs, fams in (QUICK_DEC if quick else THOROUGH_DEC):
             if _left(ctx) < 5:
@@ -91,7 +92,7 @@ def _dec(ctx, exe, quick):
             recs, fails, final = base.run_native(exe, ["dec", "mode=%d" % mode, "nds=" + nds, "fullmax=%d" % fullmax, "pairs=%d" % pairs,
                                                        "sizes=" + DEC_SIZES, "families=" + fams, "seed=%d" % ctx.seed],
                                                  deadline=ctx.deadline - 3)
-            base.report_fails(ctx, fails)
+            base.report_fails(ctx, fails, final)
             for k, d in recs:
                 if k == "FN":
                     if d["runnable"] != "1":
@@ -104,14 +105,18 @@ def _dec(ctx, exe, quick):
                     ctx.add("decoder_cases/%s/%s" % ("power" if mode else "cauchy", d["fn"]), c)
                     ctx.nontrivial(("dec", d["fn"], d["nd"], d["size"], d["family"], mode, d["full"], pairs))
                     if d["partial"] == "1":
-                        ctx.cap("time: decoder item cut short: %s nd=%s size=%s family=%s mode=%d" % (d["fn"], d["nd"], d["size"], d["family"], mode))
+                        notrun.append("partial:%s/nd=%s/size=%s/%s/mode=%d" % (d["fn"], d["nd"], d["size"], d["family"], mode))
                     if (d["fn"], d["nd"], d["size"], d["family"]) in (("raid_recX_avx2", "8", "256", "ramp"), ("raid_rec", "33", "64", "dense")) and mode == 0:
                         ctx.sample({"part": "decoders", "fn": d["fn"], "nd": int(d["nd"]), "size": int(d["size"]), "family": d["family"],
                                     "mode": "cauchy", "failure_sets_run": c, "space": "all sets" if d["full"] == "1" else "all pairs + boundary alphabet"})
                 elif k == "SKIPPED":
-                    ctx.cap("time: decoder item not run: %s nd=%s size=%s family=%s mode=%d" % (d["fn"], d["nd"], d["size"], d["family"], mode))
+                    notrun.append("skipped:%s/nd=%s/size=%s/%s/mode=%d" % (d["fn"], d["nd"], d["size"], d["family"], mode))
             if quick and not pairs:
                 ctx.cap("quick tier: nd in {%s}: only sets drawn from the boundary alphabet (all-pairs part skipped)" % nds)
+    if notrun:
+        ctx.set("decoder_items_not_completed", notrun)
+        ctx.cap("time: %d decoder items skipped or cut short, listed in decoder_items_not_completed; first: %s"
+                % (len(notrun), ", ".join(notrun[:4])))
     return total
 
 
@@ -124,7 +129,7 @@ def _chk(ctx, exe, quick):
             continue
         recs, fails, final = base.run_native(exe, ["chk", "mode=%d" % mode, "nds=" + nds, "sizes=" + sizes, "seed=%d" % ctx.seed],
                                              deadline=ctx.deadline - 3)
-        base.report_fails(ctx, fails)
+        base.report_fails(ctx, fails, final)
         for k, d in recs:
             if k == "GEO":
                 ctx.nontrivial(("chk", d["nd"], d["np"], d["size"], d["variant"], mode))
